@@ -1,0 +1,74 @@
+//go:build verif
+
+package nebula
+
+// Verification hooks for the `hsmanager` correspondence engine, second file (property C09): handshake
+// packets delivered through a relay, terminal relay objects, the relay bookkeeping of a tunnel.
+// Thin wrappers only; uses VerifHsmNode from verif_hsm.go.
+
+import (
+	"net/netip"
+
+	"github.com/slackhq/nebula/header"
+)
+
+// AddTerminalRelay records an established terminal relay object for peerAddr on the primary tunnel to
+// relayAddr: what the relay manager leaves behind after CreateRelayRequest / CreateRelayResponse.
+func (n *VerifHsmNode) AddTerminalRelay(relayAddr, peerAddr netip.Addr, localIdx, remoteIdx uint32) bool {
+	hi := n.F.hostMap.QueryVpnAddr(relayAddr)
+	if hi == nil {
+		return false
+	}
+	hi.relayState.InsertRelay(peerAddr, localIdx, &Relay{
+		Type:        TerminalType,
+		State:       Established,
+		LocalIndex:  localIdx,
+		RemoteIndex: remoteIdx,
+		PeerAddr:    peerAddr,
+	})
+	return true
+}
+
+// IncomingRelayed is the TerminalType branch of readOutsidePackets for a relay message received on the
+// primary tunnel to relayAddr for the relay object of peerAddr: the unwrapped payload is processed
+// with a relayed ViaSender.
+func (n *VerifHsmNode) IncomingRelayed(relayAddr, peerAddr netip.Addr, payload []byte) bool {
+	hi := n.F.hostMap.QueryVpnAddr(relayAddr)
+	if hi == nil {
+		return false
+	}
+	relay, ok := hi.relayState.QueryRelayForByIp(peerAddr)
+	if !ok || !hi.GetRemote().IsValid() {
+		return false
+	}
+	via := ViaSender{
+		UdpAddr:   hi.GetRemote(),
+		relayHI:   hi,
+		relay:     relay,
+		IsRelayed: true,
+	}
+	n.F.readOutsidePackets(via, payload, newRxContext(n.F, 0))
+	return true
+}
+
+// RelaysOf is relayState.CopyRelayIps of the tunnel registered under the local index.
+func (n *VerifHsmNode) RelaysOf(localIndex uint32) []netip.Addr {
+	hi := n.F.hostMap.QueryIndex(localIndex)
+	if hi == nil {
+		return nil
+	}
+	return hi.relayState.CopyRelayIps()
+}
+
+// VerifHsmRelayPayload splits a relay message (header.Message / header.MessageRelay) as written by
+// SendVia into the relay's remote index and the carried packet (sent in the clear, authenticated only).
+func VerifHsmRelayPayload(b []byte) (uint32, []byte, bool) {
+	var h header.H
+	if err := h.Parse(b); err != nil || h.Type != header.Message || h.Subtype != header.MessageRelay {
+		return 0, nil, false
+	}
+	if len(b) < header.Len+16 {
+		return 0, nil, false
+	}
+	return h.RemoteIndex, b[header.Len : len(b)-16], true
+}
